@@ -41,8 +41,9 @@ CLAIMED = {
         "ref": "5-C10",
     },
     "C08": {
-        "text": "Proof, for ONE GENERATED INSTANCE and the dispatch / stub clauses of the property only: for the code the repository's own generator emits (regenerated from the tree "
-                "under test on every run) for the repository's interface definition org.varlink.certification, the server dispatch hands a request whose method is `<interface>.<Method>` "
+        "text": "Proof, for FIVE GENERATED INSTANCES and the dispatch / stub clauses of the property only: for the code the repository's own generator emits (regenerated from the tree "
+                "under test on every run) for each interface definition the repository generates code for (org.varlink.certification, org.example.ping, org.example.more, "
+                "org.example.network, org.varlink.resolver -- units gencert, genping, genmore, gennetwork, genresolver), the server dispatch hands a request whose method is `<interface>.<Method>` "
                 "to exactly the implementation method of that name, with exactly the values the request's parameters decode to, each in its own position; a method that takes parameters "
                 "and gets none is answered with InvalidParameter(parameters), ill-typed parameters with InvalidParameter and an error return, a method the interface lacks with "
                 "MethodNotFound naming it; the dispatch meets the library's contract for Interface::call (one answer per request); every generated client stub builds a MethodCall whose "
